@@ -311,6 +311,106 @@ def messages(u):
     ]
 
 
+def decorator(u):
+    """C08: Client.standard_error_management around an inner function whose ending is chosen by `kind`"""
+    import symtrans as st
+    import udsoncan.client as uc
+    from udsoncan import Response, services
+    from udsoncan.exceptions import (NegativeResponseException, InvalidResponseException, UnexpectedResponseException, TimeoutException,
+                                     ConfigError)
+    from udsoncan.connections import BaseConnection
+
+    class Conn(BaseConnection):
+        def open(self): return self
+        def close(self): pass
+        def is_open(self): return True
+        def empty_rxqueue(self): pass
+        def specific_send(self, payload): raise st.Refuse('the connection was used')
+        def specific_wait_frame(self, timeout=2): raise st.Refuse('the connection was used')
+
+    def run(kind, ex_neg, ex_inv, ex_unx):
+        c = uc.Client(Conn(), config={'exception_on_negative_response': ex_neg, 'exception_on_invalid_response': ex_inv,
+                                      'exception_on_unexpected_response': ex_unx})
+        resp = Response(services.ECUReset, 0x22 if False else Response.Code.PositiveResponse, b'\x01')
+        neg = Response(services.ECUReset, 0x22, b'')
+
+        def inner(self, k):
+            if k == 1:
+                raise NegativeResponseException(neg)
+            if k == 2:
+                raise InvalidResponseException(resp)
+            if k == 3:
+                raise UnexpectedResponseException(resp)
+            if k == 4:
+                raise ValueError('bad argument')
+            if k == 5:
+                raise TimeoutException('silence')
+            if k == 6:
+                raise ConfigError('key')
+            if k == 7:
+                raise NotImplementedError('edition')
+            if k == 8:
+                raise RuntimeError('transport')
+            return resp
+        dec = uc.Client.standard_error_management(inner)
+        try:
+            r = dec(c, kind)
+            how = 0 if r is resp and kind not in (1, 2, 3) else 1        # 0: the inner function's value, 1: e.response handed back
+        except (NegativeResponseException, InvalidResponseException, UnexpectedResponseException) as e:
+            r, how = e.response, 2
+        flags = lambda x: [int(bool(x.positive)), int(bool(x.valid)), int(bool(x.unexpected))]
+        return [how] + flags(r)
+    def run_twice(first, kind, ex_neg, ex_inv, ex_unx):
+        """the same, after an earlier decorated call on the same client that ended in the way `first`"""
+        holder = {}
+        orig_client = uc.Client
+
+        class Once(orig_client):
+            pass
+
+        def make(*a, **k):
+            holder['c'] = orig_client(*a, **k)
+            return holder['c']
+        c = orig_client(Conn(), config={'exception_on_negative_response': ex_neg, 'exception_on_invalid_response': ex_inv,
+                                        'exception_on_unexpected_response': ex_unx})
+        r0 = Response(services.ECUReset, Response.Code.PositiveResponse, b'\x01')
+        n0 = Response(services.ECUReset, 0x22, b'')
+
+        def inner(self, k, resp, neg):
+            if k == 1:
+                raise NegativeResponseException(neg)
+            if k == 2:
+                raise InvalidResponseException(resp)
+            if k == 3:
+                raise UnexpectedResponseException(resp)
+            if k == 4:
+                raise ValueError('bad argument')
+            if k == 5:
+                raise TimeoutException('silence')
+            if k == 6:
+                raise ConfigError('key')
+            if k == 7:
+                raise NotImplementedError('edition')
+            if k == 8:
+                raise RuntimeError('transport')
+            return resp
+        dec = uc.Client.standard_error_management(inner)
+        try:
+            dec(c, first, r0, n0)
+        except Exception:
+            pass
+        resp = Response(services.ECUReset, Response.Code.PositiveResponse, b'\x01')
+        neg = Response(services.ECUReset, 0x22, b'')
+        try:
+            r = dec(c, kind, resp, neg)
+            how = 0 if r is resp and kind not in (1, 2, 3) else 1
+        except (NegativeResponseException, InvalidResponseException, UnexpectedResponseException) as e:
+            r, how = e.response, 2
+        return [how, int(bool(r.positive)), int(bool(r.valid)), int(bool(r.unexpected))]
+    return [dict(name='fn_decorated', params=[('kind', 'Z'), ('ex_neg', 'B'), ('ex_inv', 'B'), ('ex_unx', 'B')], result='S', call=run),
+            dict(name='fn_decorated_after', params=[('first', 'Z'), ('kind', 'Z'), ('ex_neg', 'B'), ('ex_inv', 'B'), ('ex_unx', 'B')], result='S', call=run_twice)]
+
+
 def pick(names):
     return lambda u: [sp for sp in helpers(u) if sp['name'] in names]
 
@@ -325,6 +425,7 @@ def files(u):
             ('Fn_Codecs.v', 'udsoncan/common/CommunicationType.py, DataFormatIdentifier.py, AddressAndLengthFormatIdentifier.py, Baudrate.py',
              pick(['fn_alfid_byte', 'fn_commtype_byte', 'fn_commtype_from_byte', 'fn_dfi_byte', 'fn_dfi_from_byte', 'fn_baud', 'fn_baud_bytes', 'fn_baud_effective'])),
             ('Fn_Filesize.v', 'udsoncan/common/Filesize.py', pick(['fn_filesize_width'])),
+            ('Fn_Decorator.v', 'udsoncan/client.py (standard_error_management)', decorator),
             ('Fn_Edition.v', 'udsoncan/client.py (__init__, set_config, set_configs, refresh_config, validate_config, clear_dtc, communication_control)', edition),
             ('Fn_SimpleReq.v', 'udsoncan/client.py (the methods up to the call of send_request), udsoncan/services/*.py, Request.py',
              lambda u: [sp for sp in simple_services(u) if sp['name'].endswith('_request')]),
